@@ -165,6 +165,19 @@ pub fn analyse(rep: &RunReport) -> Verdict {
                 if pipe_involved {
                     v(&mut out, "C11", "item_not_exclusive", &[b.2, a.2], b.0, format!("pipe item processing overlapped another operation on object {}", o));
                 }
+                for id in [a.2, b.2] {
+                    if id & PIPE_ITEM_FLAG == 0 && ops[id as usize].kind == Kind::TrySync {
+                        v(&mut out, "C09", "try_sync_not_exclusive", &[id, if id == a.2 { b.2 } else { a.2 }], b.0, format!("try_sync {} ran its closure while another operation was inside object {}", id, o));
+                    }
+                }
+                if a.2 & PIPE_ITEM_FLAG == 0 && ops[a.2 as usize].kind == Kind::FutureSync {
+                    // the earlier operation is a future_sync: if its future had been dropped, cancellation was not clean
+                    let ra = &ops[a.2 as usize];
+                    let dropped = ra.handle.and_then(|h| world.hrec[h].dropped_at);
+                    if dropped.map_or(false, |d| a.1.map_or(true, |f| f > d)) {
+                        v(&mut out, "C08", "cancelled_future_outlived_its_slot", &[a.2, b.2], b.0, format!("future_sync {} was dropped mid-operation, but operation {} started on object {} before its future had been destroyed", a.2, b.2, o));
+                    }
+                }
             }
         }
         // data-level cross-check: the value's own chain must equal the chain recomputed from its log
@@ -201,6 +214,9 @@ pub fn analyse(rep: &RunReport) -> Verdict {
                             continue;
                         }
                         v(&mut out, "C02", "order", &[a.id, b.id], sb, format!("{} {} returned before {} {} was called on object {}, but {} started before {} had finished", a.tag, a.id, b.tag, b.id, o, b.id, a.id));
+                        if b.kind == Kind::TrySync {
+                            v(&mut out, "C09", "try_sync_out_of_order", &[b.id, a.id], sb, format!("try_sync {} ran although {} {} scheduled earlier on object {} had not finished", b.id, a.tag, a.id, o));
+                        }
                     }
                 }
             }
@@ -751,7 +767,7 @@ fn blame_hang(rep: &RunReport, live: Live, out: &mut Vec<Violation>, verdict: &m
         let inside: Vec<&OpRec> = ops.iter().filter(|r| r.obj == Some(o) && r.kind.has_body() && r.start.is_some() && r.fin.is_none()).collect();
         for hd in &inside {
             if let Some(g) = hd.waiting_gate {
-                if world.gates[g].open {
+                if world.gates[g].open || hd.waiting_gate_alt.map_or(false, |g2| world.gates[g2].open) {
                     // Who polls this operation's future?  A future_sync body is polled by whoever awaits the
                     // returned future: the harness task, or (nested) the job of another object; everything
                     // else is polled by its own object's queue.
@@ -783,6 +799,15 @@ fn blame_hang(rep: &RunReport, live: Live, out: &mut Vec<Violation>, verdict: &m
                             Some(3) | Some(4) => {
                                 v(out, "C06", "wake_lost", &[hd.id], hd.start.unwrap_or(0), describe(hd));
                                 props_found += 1;
+                            }
+                            // marked as running / awoken, but the thread that runs it from inside a call is still parked
+                            Some(2) | Some(6) => {
+                                let parked_runner = ops.iter().any(|r| r.obj == Some(co) && r.outcome == CallOutcome::InCall && matches!(task_state(r.thread), Some(TState::Blocked(Wait::Park))))
+                                    || (world.objs[co].drop_inv.is_some() && world.objs[co].drop_ret.is_none() && matches!(task_state(world.objs[co].dropper), Some(TState::Blocked(Wait::Park))));
+                                if parked_runner {
+                                    v(out, "C06", "runner_left_parked", &[hd.id], hd.start.unwrap_or(0), describe(hd));
+                                    props_found += 1;
+                                }
                             }
                             _ => {}
                         }
